@@ -13,15 +13,26 @@ checks = {
  "C07": ("fault_enumeration", "For a generated history and a chosen transaction, every collaborator call (target.Set, cache Read/ReadCh/GetKeys/Modify, schema GetSchema) is numbered in a counting pass; sampled (call, fault kind) pairs incl. torn writes, lost acks, short reads, device reject/unreachable/lost reply and fail-stop crash + restart over the same badger directory are injected one at a time in fresh worlds, the request is retried and the outcome compared with the fault-free reference run.", "4 C07"),
  "C10": ("exploration", "On every Set of generated histories the direct device asks the same tree instance for proto, JSON, JSON_IETF and the 8 XML documents (change and full views); each is decoded by the harness's own schema-driven decoders, applied to a copy of the prior device state under its protocol's semantics and compared; XML well-formedness, namespace, key-order and operation clauses are checked per document.", "4 C10"),
  "C11": ("exploration", "C01/C02 histories over the adversarial profile (prefix-related names and key values, separator characters in keys, lists with 2 and 3 keys in non-alphabetical order): every path is followed through request, tree, cache key, device and response and compared structurally by the model oracles; ToPath(ToStrings(p)) and ParsePath(ToXPath(p)) asserted on every path of a run. Claimed for what crosses parties, not for the cross product of pure converters.", "4 C11"),
- "C12": ("exploration", "Single-leaf transactions over one leaf per YANG built-in type x boundary/interior values x input form (typed, string, JSON, JSON_IETF); the value at the device, in the intended store and returned by GetData in four encodings must denote the supplied datum (abstract value domain); equal data must not be re-sent. Claimed for the compositions the running system performs.", "4 C12"),
+ "C12": ("exploration", "Single-leaf transactions over one leaf per YANG built-in type x boundary/interior values x input form (typed, string, JSON / JSON_IETF document, JSON / JSON_IETF scalar or array on the leaf's own path); the value at the device, in the intended store and returned by GetData in four encodings must denote the supplied datum (abstract value domain); equal data must not be re-sent. Claimed for the compositions the running system performs.", "4 C12"),
  "C13": ("exploration", "Scripted device notifications (re-sync cycles, on-change updates/deletes, JSON blobs, state leaves) into the real Datastore.Sync with 1/2/16 write workers; every cache write of a sync worker parks in a decorator and the seeded scheduler chooses the completion order; CONFIG/STATE compared with a sequential running-mirror model at quiescence.", "4 C13"),
  "C18": ("fault_enumeration", "The real ncTarget.Set is driven around an in-process netconf.Driver with XML change documents captured from real trees; for both commit-datastore settings, the 8 option combinations and every failure point of the driver call sequence (with and without rpc-error warnings) - enumerated completely per document - the recorded call sequence and the fake device's candidate are judged.", "4 C18"),
  "C19": ("exploration", "Server.GetData/Subscribe/WatchDeviations run against fake server streams under the seeded scheduler; Send failures at every index, stalls, slow consumers and client cancellation at every tick; bounded return after the stream ends, no panic, no goroutine left at bubble end (synctest).", "4 C19"),
  "C14": ("exploration", "GetData through Server.GetData with a fake stream for drawn path sets x 4 encodings x MAIN/INTENDED selections after histories with prefix-related keys and names; the answer is compared with the actual store content (direct dump) filtered element-wise; unknown paths must fail without data.", "4 C14"),
  "C15": ("exploration", "After histories and drift written into the CONFIG store the real DeviationMgr runs on the fake clock; the messages of one cycle on a fake WatchDeviations stream are compared as a multiset with a deviation model computed from dumps of both stores.", "4 C15"),
- "C17": ("exploration", "Differential simulation: the same generated history over the constraint schema is applied to two simulated worlds differing only in Validation.DisableConcurrency; each transaction is validated as a dry run once sequentially and three times concurrently and the normalised error/warning sets must be identical (inputs seeded and replayable; goroutine interleavings inside Validate are the Go scheduler's). Thorough tier: the simulator is rebuilt with the Go race detector and any DATA RACE report of a worker is a violation (runtime monitoring arm, stated as such).", "4 C17"),
- "C20": ("exploration", "Seeded structural mutation of peer messages delivered to the running simulated system: TransactionSet and GetData requests, device notifications and NETCONF get-config replies that are well-formed at the protobuf/XML level but arbitrary above it; oracle: every call returns within 60 simulated seconds, no panic in any goroutine (worker death = violation), no goroutine left at bubble end, and the stores and device are unchanged by rejected requests.", "4 C20"),
+ "C17": ("exploration", "Arm A (deterministic, two thirds of the runs): every goroutine of RootEntry.Validate parks at yield points compiled into pkg/tree (validation goroutine start, lazy load of a running value or default, child creation, value insertion) and is released one at a time by the seeded scheduler; the verdict under each schedule must equal the sequential verdict, for the transaction pipeline and for trees built without the running store whose validators load values on demand; a schedule that kills the process is minimised through a dumped tape. One third of the runs let the goroutines run free (differential). Thorough tier: the simulator is rebuilt with the Go race detector and any DATA RACE report whose accesses are not both inside the harness is a violation (runtime monitoring arm for the 'no unsynchronised access' half, stated as such).", "4 C17"),
+ "C20": ("exploration", "Seeded structural mutation of peer messages delivered to the running simulated system: TransactionSet and GetData requests, device notifications (incl. odd JSON documents on container, list and root paths) and NETCONF get-config replies that are well-formed at the protobuf/XML level but arbitrary above it; oracle: every call returns within 60 simulated seconds, no panic in any goroutine (worker death = violation), no goroutine left at bubble end, and the stores and device are unchanged by rejected requests.", "4 C20"),
  "C16": ("exploration", "Seeded cooperative scheduler over yield points at every transaction-manager lock acquisition and timer event: Confirm/Cancel/expiry/competing Set interleavings on the real Datastore; exactly-once, agreement with client answers, process survival, porcupine linearizability against the slot model.", "4 C16"),
+}
+technique = {
+ "C07": "deterministic simulation with fault injection: one fault per collaborator call (device, cache, schema, crash+restart) enumerated over a counting pass, retry compared with the fault-free reference run",
+ "C13": "deterministic simulation: seeded scheduler chooses the completion order of parked cache writes of the real Sync workers; sequential running-mirror model at quiescence",
+ "C16": "deterministic simulation: seeded cooperative scheduler over yield points in the transaction manager and timer, fake clock; exactly-once and porcupine linearizability oracles",
+ "C17": "deterministic simulation: validation goroutines parked at pkg/tree yield points and released by the seeded scheduler, sequential verdict as oracle; plus a race-detector build (runtime monitoring) in the thorough tier",
+ "C18": "deterministic fault enumeration: every failure point of the NETCONF driver call sequence per captured change document, call-sequence grammar oracle",
+ "C19": "deterministic simulation: fake server streams whose Send parks under the seeded scheduler, injected Send failures, stalls and cancellations on the fake clock; bounded-return and leak oracles",
+ "C20": "deterministic simulation with message garbling: seeded structural mutation of peer messages, liveness bound on the fake clock, process-survival oracle with crash-tape minimisation",
+ "C06": "deterministic simulation on a fake clock: seeded operation sequences with timer expiry and device errors, transaction-slot reference model with liveness probe",
+ "C05": "deterministic simulation on a fake clock: histories ended by cancel or timer expiry, snapshot-equality oracle",
 }
 def hooks_commits():
     out = subprocess.run(["git","-C","/repo","log","--format=%h %s"],capture_output=True,text=True).stdout.splitlines()
@@ -51,7 +62,7 @@ for pid in allprops:
           "evidence_file": f"/verif/evidence/{pid}.json", "replay_cmd_template": f"./run.sh {pid} --replay {{path}}",
           "engine": "vsim", "level_claimed": {"category": lvl, "text": text, "design_ref": "DESIGN.md §" + ref},
           "level_note": "Trusted: Go 1.26.8 + testing/synctest, sdcio/cache + badger, schema-server/goyang, the harness's device model, decoders and reference models. Bounded: <=4 owners, <=3 intents per transaction, vsim schema, histories <= 20 transactions.",
-          "technique": "deterministic simulation with fault injection (seeded histories/schedules, reference-model oracle)",
+          "technique": technique.get(pid, "deterministic simulation: seeded histories on a fake clock against the real datastore, reference-model oracle after every step, tape minimisation and replay"),
         })
     else:
         m["not_applicable"].append({"property_id": pid, "reason": NA.get(pid, "check not built yet in this round (planned, see DESIGN.md §4); not claimed")})
